@@ -199,7 +199,7 @@ Definition pairs_proper (bs : list bytes) : bool :=
 
 Definition borders_oracle (prefix : bytes) (sk : list bytes) (bs : list bytes) (V : store) : option N :=
   if pairs_proper bs && forallb (fun x => Bool.eqb (in_borders bs (rkey x)) (in_charge prefix sk (rkey x))) V then None
-  else if good_config prefix sk then Some 0 else Some 1.
+  else Some 0.
 
 Definition has_delcas (v : c07_variant) : bool :=
   existsb (fun p => match p with (KDel, (_, OFailCond)) => true | _ => false end) (combine (v7_kinds v) (v7_oc v)).
@@ -245,7 +245,7 @@ Fixpoint round_ok (cur : N) (reads : list c07_read) (after : list c07_rres) (see
 Definition variant_oracle (prefix : bytes) (sk : list bytes) (pre : store) (reads : list c07_read)
            (cb : list c07_rres) (v : c07_variant) : option N :=
   if negb (outside_untouched prefix sk pre (apply_diff pre (v7_post v))) then
-    (if good_config prefix sk then Some 0 else Some 1)
+    Some 0
   else if negb (list_eqb rres_eqb7 (before_of cb v) (after_of cb v)) then
     (if has_delcas v then Some 2 else Some 0)
   else if negb (round_ok (v7_cur2 v) reads (after_of cb v) [] (v7_round v)) then
